@@ -13,14 +13,17 @@ RULE = ('corpus; RGB lattice with 52 steps per channel (thorough: all 140608 tri
         'two-valued images of 11 integer + 2 float dtypes x all three call forms x (min,max,dtype) requests inside the '
         'dtype range. Non-trivial = not all-black / not constant; distinct = distinct protocol line.')
 ASSUMPTIONS = ['channel values lie in [0,255]; no NaN/inf',
-               'a*, b* of greys are compared with 0 within |a*| <= 0.006, |b*| <= 0.011: the 4-digit sRGB matrix and the '
-               '5-digit white point of the standards do not agree further (Lean: rows of the matrix sum to (0.9505, 1, 1.089))',
+               'a*, b* of greys: the 4-digit sRGB matrix (rows sum to (0.9505, 1, 1.089)) and the 5-digit white point of the '
+               'standards do not agree further; Lean (C20_lab_grey_bound, over the reals) proves 0 <= a* <= 500/95047 = 0.00526 '
+               'and -0.01041 = -3400/326649 <= b* <= 0 for every grey, and the real doubles are compared with these bounds '
+               '+- 1e-9 (within the |a*| <= 0.006, |b*| <= 0.011 of DESIGN.md, which remain the image-level tolerances)',
                'xyz2rgb(rgb2xyz(c)) is compared with c within 0.25 (8-bit units) = 12.92*255*||Minv*M - I||_inf '
                '(Lean theorem C20_inverse_matrix); rounding recovers the 8-bit value',
                'absolute comparison with the Float model/spec: 1e-12 (XYZ), 1e-9 (Lab, back-converted RGB, grey); '
                'float32 inputs are computed by numpy in single precision: 2e-5 relative there',
-               'monotonicity is tested on integer-valued channels and on real values at distance > 1e-6 from the knee '
-               '(the standard\'s own constants make the piecewise function drop by 1.4e-7 at the knee)',
+               'monotonicity over the reals is a Lean theorem (C20_transfer_monotone: both segments strictly increasing and '
+               '0.04045/12.92 <= ((0.04045+0.055)/1.055)^2.4, the function steps UP by 2.3e-9 at the knee); on the real '
+               'doubles it is tested on integer-valued channels and on real values at distance > 1e-6 from the knee',
                'stretch: requested range min <= max lies inside the range of the requested dtype; image values finite, '
                '|v| < 2^63; bounds exactly representable in the requested dtype']
 EXHAUSTIVE = {'thorough': True}
@@ -28,7 +31,10 @@ TRUSTED = ['numpy (array construction, dot, astype)', 'libm pow in the Lean runt
 
 KNEE = 0.04045 * 255.0
 TOL = dict(xyz=1e-12, lab=1e-9, back=1e-9, grey=1e-9)
-GREY_A, GREY_B = 0.006, 0.011
+GREY_A, GREY_B = 0.006, 0.011          # tolerances of DESIGN.md (image-level checks with dtype slack)
+# proved over the reals (C20_lab_grey_bound): 0 <= a* <= 500/95047, -3400/326649 <= b* <= 0 for every grey; the doubles of
+# the real code are compared with these bounds with the Lab tolerance 1e-9
+GREY_A_MAX, GREY_B_MIN = 500.0 / 95047.0, -3400.0 / 326649.0
 RT_TOL = 0.25
 
 
@@ -111,7 +117,8 @@ def _eval_rgb(case):
             f.append(dict(kind='property', key='rgb2xyz:black', detail=dict(rgb=[0, 0, 0], got=X[black][0].tolist())))
         if greyrow.any():
             ga, gb = Lb[greyrow][:, 1], Lb[greyrow][:, 2]
-            bad = np.nonzero(~((np.abs(ga) <= GREY_A) & (np.abs(gb) <= GREY_B)))[0]
+            bad = np.nonzero(~((ga >= -TOL['lab']) & (ga <= GREY_A_MAX + TOL['lab']) &
+                               (gb >= GREY_B_MIN - TOL['lab']) & (gb <= TOL['lab'])))[0]
             if bad.size:
                 j = int(bad[0])
                 f.append(dict(kind='property', key='rgb2lab:grey', detail=dict(
